@@ -229,7 +229,7 @@ def numeric_raw(enc, fb):
         if enc.little and enc.bits % 8:
             raise DontCare()
         return bits.int_field(fb, enc.encoding, enc.little)
-    if enc.encoding == "MILSTD_1750A":
+    if enc.encoding in ("MILSTD_1750A", "MIL-1750A"):
         return bits.mil1750a(fb, enc.little)
     return bits.float_field(fb, enc.little)
 
